@@ -128,6 +128,14 @@ def oracle(g, obs):
                         bad.append(f"{name} started in the same step as {running}, a producer of '{s}'")
                     if name in last_start and not any(te > last_start[name] for te in done):
                         bad.append(f"{name} started again although '{s}' was not produced again since its previous run")
+            # ... and the other way round: a producer of an awaited name starting while a waiter of that name is executing
+            me = nodes.get(name)
+            if me is not None:
+                mine = set(gen.iface(me)[1] if me["kind"] == "graph" else pdl.node_outputs(me))
+                for wn in set(open_spans.values()):
+                    w2 = nodes.get(wn)
+                    if w2 and wn != name and set(w2.get("wait_for") or []) & mine:
+                        bad.append(f"{name}, a producer of {sorted(set(w2['wait_for']) & mine)}, started while the waiter {wn} was executing (same step)")
             last_start[name] = t
             open_spans[ev["span"]] = name
         elif ty == "NodeEndEvent":
